@@ -81,7 +81,7 @@ M = [
  ("C09__read_error_ignored", "secec/ecdsa.go", "\t\tif _, err := io.ReadFull(rand, tmp[:]); err != nil {\n\t\t\treturn nil, fmt.Errorf(\"%w: %w\", errEntropySource, err)\n\t\t}\n\n\t\t_, didReduce", "\t\t_, _ = io.ReadFull(rand, tmp[:])\n\n\t\t_, didReduce"),
  ("C09__sentinel_ignored", "secec/ecdsa.go", "\tcase readerRFC6979SHA256:\n\t\treturn newDrbgRFC6979(k.scalar, e), nil\n\tcase nil:", "\tcase nil, readerRFC6979SHA256:"),
  ("C13__odd_y_accepted", "secec/bitcoin/schnorr.go", "\tif rYIsOdd != 0 {\n\t\treturn false\n\t}", "\tif rYIsOdd > 1 {\n\t\treturn false\n\t}"),
- ("C13__r_not_canonical", "secec/bitcoin/schnorr.go", "if !field.BytesAreCanonical((*[field.ElementSize]byte)(sigRXBytes)) {", "if false && !field.BytesAreCanonical((*[field.ElementSize]byte)(sigRXBytes)) {"),
+ # (removed C13__r_not_canonical: dropping the r < p test is an equivalent mutant, x(R) is compared bytewise with a canonical encoding)
  ("C13__challenge_tag", "secec/bitcoin/schnorr.go", "schnorrTagChallenge = \"BIP0340/challenge\"", "schnorrTagChallenge = \"BIP0340/challeng3\""),
  ("C13__e_not_negated", "secec/bitcoin/schnorr.go", "\te.Negate(e)\n\tR := secp256k1.NewIdentityPoint().DoubleScalarMultBasepointVartime(s, e, k.point)", "\te.Negate(e).Negate(e)\n\tR := secp256k1.NewIdentityPoint().DoubleScalarMultBasepointVartime(s, e, k.point)"),
  ("C13__challenge_order", "secec/bitcoin/schnorr.go", "eBytes := schnorrTaggedHash(schnorrTagChallenge, sigRXBytes, pkXBytes, msg)", "eBytes := schnorrTaggedHash(schnorrTagChallenge, pkXBytes, sigRXBytes, msg)"),
